@@ -4,7 +4,7 @@ from __future__ import annotations
 import ast as _ast
 import math
 
-from ..common import all_conds, conds_at, mro_methods, nshow, outer_field, paths
+from ..common import all_conds, conds_at, mro_methods, nshow, outer_field, paths, unclamped
 from ..expr import C, SELF, canon, first_diff, norm, show, strip_epochs, walk
 from ..model import AnalysisError
 from ..own import BINF, TABLE, is_bucket
@@ -197,7 +197,7 @@ def check(prog, rep, tier):
             if p.exit[0] != "return":
                 continue
             ev = counter_events(p, T)
-            if not ev or canon(ev[0].value) != canon(("bin", sign, ("f", SELF, T, 0), num)):
+            if not ev or unclamped(canon(ev[0].value)) != canon(("bin", sign, ("f", SELF, T, 0), num)):
                 rep.bad("C14.count-min", f"CountMinSketch.{fn}", "total", f"the total does not move by {sign}num_els", f.where())
                 ok = False
                 break
@@ -209,7 +209,10 @@ def check(prog, rep, tier):
         if p.exit[0] != "return":
             continue
         ev = counter_events(p, T)
-        if not ev or canon(ev[0].value) != canon(("bin", "+", ("f", SELF, T, 0), ("f", ("p", "second"), T, 0))):
+        if not ev and any(c.truth and strip_epochs(c.atom) in (("cmp", "==", ("f", ("p", "second"), T, 0), C(0)), ("cmp", "==", C(0), ("f", ("p", "second"), T, 0)))
+                          for c in p.conds):
+            continue  # the operand's total is known to be 0 on this path: nothing to add
+        if not ev or unclamped(canon(ev[0].value)) != canon(("bin", "+", ("f", SELF, T, 0), ("f", ("p", "second"), T, 0))):
             rep.bad("C14.count-min", "CountMinSketch.join", "total", "join does not add the operand's total", f.where())
             ok = False
             break
